@@ -196,6 +196,74 @@ def cpp_task(p, tier, seed):
     return part.d
 
 
+def model_task(p, tier, seed):
+    """Model-level programs (abs / inverse-function compositions; no Jacobians): python.compile and the C++ Model, CSE on vs off."""
+    from . import c01
+
+    part = Part()
+    part.program(p.id)
+    part.fn("python.compile", "python.Model.model", "python.BasicBlock._compile", "cpp.compile", "cpp.Model.model_body", "cpp.BasicBlock.compile")
+    env = pyh.input_env(p)
+    _, assumes = pyh.spec_update(p, env)
+    tmo = tier_timeout_ms(tier)
+    from formak import python
+
+    outs = {}
+    for cse in (True, False):
+
+        def harness():
+            with installed(), quiet():
+                pm = python.compile(p.ui_model(), pyh.sym_calibration_map(p, env), config=pyh.py_config(cse))
+                return pm.model(SymReal(env[p.dt]), pm.State(**pyh.sym_state_kwargs(p.state, env)), pm.Control(**pyh.sym_state_kwargs(p.control, env))), len(pm._impl._prefix)
+
+        ls = explore(harness, assumes=assumes)
+        part.leaves(ls)
+        if len(ls) != 1 or ls[0].status != "ok":
+            part.harness_error(f"{p.id}/py-model/cse={cse}: {ls}")
+            return part.d
+        outs[cse] = ls[0].value
+    ss = p.s_state()
+    part.extra("py_model_temporaries", outs[True][1])
+    for i, s_ in enumerate(ss):
+
+        def replay(e, s_=s_):
+            return {"impl": c01.concrete_model(p, True, e)[s_], "spec": c01.concrete_model(p, False, e)[s_]}
+
+        prove_equal(part, PID, f"{p.id}/py-model/{s_}: cse-on == cse-off", lift(outs[True][0].data[i, 0]), lift(outs[False][0].data[i, 0]), assumes, tmo, replay=replay, key=f"{p.id}/py-model/{s_}", info={"kind": "py-model", "program": p.id, "output": s_}, all_vars=env)
+    # C++ Model mode
+    cfs = {}
+    try:
+        res = {}
+        for cse in (True, False):
+            cf = CppFilter(p, ekf=False, cse=cse)
+            cf.__enter__()
+            cfs[cse] = cf
+            try:
+                cf.compile_symbolic()
+            except build.BuildError as ex:
+                path = write_replay(PID, {"key": f"{p.id}/cpp-model/compile", "info": {"kind": "cpp-model-compile", "program": p.id, "cse": cse}, "inputs": {}, "compiler_log": ex.log[-3000:]})
+                part.violation(f"{p.id}/cpp-model/compile", f"generated C++ Model (cse={cse}) does not compile", path)
+                return part.d
+            leaves, _ = cf.run("")
+            res[cse] = leaves[0].out
+        for nm in res[True]:
+
+            def replay(e, nm=nm):
+                e = dict(e)
+                for v in env:
+                    e.setdefault(v, 0.5)
+                a_, _, _ = cfs[True].run_concrete("", e)
+                b_, _, _ = cfs[False].run_concrete("", e)
+                return {"impl": a_[nm], "spec": b_[nm]}
+
+            prove_equal(part, PID, f"{p.id}/cpp-model/{nm}: cse-on == cse-off", res[True][nm], res[False][nm], assumes, tmo, replay=replay, key=f"{p.id}/cpp-model/{nm}", info={"kind": "cpp-model", "program": p.id, "output": nm}, all_vars=env)
+    finally:
+        for cf in cfs.values():
+            cf.__exit__(None, None, None)
+    part.sample({"program": p.id, "backend": "python+c++ Model", "temporaries": outs[True][1]})
+    return part.d
+
+
 def programs_for(tier, seed):
     if tier == "quick":
         return [CP.P7(), CP.P3(), CP.P8()]
@@ -209,7 +277,7 @@ def _dispatch(fn, args):
 def run(tier, seed):
     rep = Report(PID, tier, seed, "translation_validation")
     ps = programs_for(tier, seed)
-    tasks = [(py_task, (p, tier, seed)) for p in ps] + [(cpp_task, (p, tier, seed)) for p in ps]
+    tasks = [(py_task, (p, tier, seed)) for p in ps] + [(cpp_task, (p, tier, seed)) for p in ps] + [(model_task, (CP.P11(), tier, seed))]
     for d in pmap(_dispatch, tasks):
         rep.merge(d)
     rep.bounds = {"programs": [p.id for p in ps], "inputs": "all reals where the expressions are defined", "outside": "floating-point rounding (CSE/simplify may legitimately reassociate)"}
@@ -228,6 +296,30 @@ def replay(path):
     info = r["info"]
     ps = {p.id: p for p in programs_for("thorough", int(r.get("seed", 0))) + programs_for("quick", 0)}
     p = ps[info["program"]]
+    if info["kind"] in ("py-model", "cpp-model", "cpp-model-compile"):
+        from . import c01
+
+        p = CP.P11()
+        if info["kind"] == "py-model":
+            a, b = c01.concrete_model(p, True, r["inputs"]), c01.concrete_model(p, False, r["inputs"])
+            bad = [k for k in a if not approx_equal(a[k], b[k])]
+            print(a, b)
+            print("REPRODUCED" if bad else "not reproduced")
+            return 1 if bad else 0
+        e = dict(r["inputs"])
+        for v in pyh.input_env(p):
+            e.setdefault(v, 0.5)
+        try:
+            with CppFilter(p, ekf=False, cse=True) as c1, CppFilter(p, ekf=False, cse=False) as c0:
+                a, _, _ = c1.run_concrete("", e)
+                b, _, _ = c0.run_concrete("", e)
+        except build.BuildError as ex:
+            print("REPRODUCED: does not compile", ex.log[-800:])
+            return 1
+        bad = [k for k in a if not approx_equal(a[k], b[k])]
+        print(a, b)
+        print("REPRODUCED" if bad else "not reproduced")
+        return 1 if bad else 0
     if info["kind"] == "py":
         try:
             a, b = py_blocks_float(p, True, r["inputs"]), py_blocks_float(p, False, r["inputs"])
